@@ -112,7 +112,12 @@ def generate(tier, seed, work, stats):
     from harness.drivers import c02
     for c in c02.random_dfas(2500 if tier == "quick" else 30000, seed + 11):     # partition refinement needs >= 5 states
         cases.append(dict(kind="dfa", calls=c["callsA"], spool="int5", ypool="ab", perm=None, family="random-dfa"))
-    return cases
+    # operands whose names are what the library's own collision handling produces, and symbols with colliding hashes
+    for c in random_cases(1500 if tier == "quick" else 15000, seed + 21, nq=6, nt=9):
+        cases.append(dict(c, spool="suffix", family="random-suffix-names"))
+    for c in random_cases(500 if tier == "quick" else 5000, seed + 22, nq=4, nt=7):
+        cases.append(dict(c, ypool="neg", family="random-negative-symbols"))
+    return with_ctor(cases)
 
 
 def misc_event(a, A, syms):
